@@ -572,6 +572,40 @@ def keepalive_case(run):
 KHEADER = "From Coq Require Import List ZArith NArith Bool.\nImport ListNotations.\nFrom JR Require Import Keepalive AuthCases Options KeepaliveCases.\nOpen Scope Z_scope.\n"
 
 
+LOOP_ITER = ("loop.incoming", "loop.readerr", "loop.take", "loop.pong", "loop.timeout")
+
+
+def looptimer_cases(run, slack_ns=5000000):
+    """the loop's idle timer is re-armed at the top of every iteration of handleWsConn's loop and fires `timeout` later:
+    (a) healthy runs: replayed with the configured T, it must never fire; (b) every observed firing (loop.timeout) comes
+    no earlier than T - slack after the previous iteration. Returns a list of (label, kcase term)."""
+    ml = main_labels(run)
+    cconn = ml[0]
+    T = int(run["params"]["timeout_ms"]) * 1000000
+    P = int(run["params"]["ping_ms"]) * 1000000
+    evs = [e for e in run["events"] if e["c"] == cconn and e["p"] in LOOP_ITER]
+    if not evs:
+        return []
+    out = []
+
+    def term(opts_T, ticks, fired):
+        opts = ["OPing %d" % P, "OTimeout %d" % opts_T]
+        return "{| kc_opts := [%s]; kc_events := [%s]; kc_expect_fired := %s; kc_aevents := []; kc_armed := [] |}" % (
+            "; ".join(opts), "; ".join(ticks), "true" if fired else "false")
+    if run["params"]["kind"] == "healthy":
+        ticks, last = [], evs[0]["t"]
+        for e in evs[1:]:
+            ticks += ["Tick %d" % (e["t"] - last), "Reset"]
+            last = e["t"]
+        out.append(("healthy: the idle timer never fires", term(T, ticks, False)))
+    prev = None
+    for e in evs:
+        if e["p"] == "loop.timeout" and prev is not None:
+            out.append(("an observed firing is not early", term(max(1, T - slack_ns), ["Tick %d" % (e["t"] - prev["t"])], True)))
+        prev = e
+    return out
+
+
 def validate_keepalive(res, runs, name):
     import re
     runs = [r for r in runs if r["scenario"] == "keepalive"]
@@ -585,4 +619,18 @@ def validate_keepalive(res, runs, name):
         res.mismatches.append({"family": "conn/keepalive", "error": "keepalive cases did not evaluate", "log": out[-1500:]})
         return [], runs
     bad = [(r, int(d), int(i)) for (d, i), r in zip(pairs, runs) if int(d) != 0]
+    # the loop's idle timer, the second clock of the keepalive: same discrete-time model, its own re-arming events
+    lt = [(r, lab, term) for r in runs for lab, term in looptimer_cases(r)]
+    if lt:
+        src2 = KHEADER + "Definition cases : list kcase := [\n%s\n].\nDefinition D := Eval vm_compute in map kcase_diag cases.\nPrint D.\n" % ";\n".join(t for _, _, t in lt)
+        rc2, out2 = vlib.run_cases("cases_%skl" % name, src2)
+        m2 = re.search(r"D\s*=\s*(.*?)\n\s*:\s", out2, flags=re.S) if rc2 == 0 else None
+        pairs2 = re.findall(r"\(\s*(\d+)(?:%N)?,\s*(\d+)(?:%N)?\s*\)", m2.group(1)) if m2 else None
+        if pairs2 is None or len(pairs2) != len(lt):
+            res.mismatches.append({"family": "conn/keepalive", "error": "idle-timer cases did not evaluate", "log": out2[-1500:]})
+        else:
+            for (d, i), (r, lab, term) in zip(pairs2, lt):
+                if int(d) != 0:
+                    res.mismatches.append({"family": "conn/keepalive", "params": r["params"], "diag": "the loop's idle timer: " + lab + " — not so in this run (replayed through the deadline model)"})
+            res.add_cov(idle_timer_cases_validated=len(lt))
     return bad, runs
